@@ -2126,3 +2126,100 @@ def var3(ctx):
         raise AnchorMissing("VAR-3: %d syllable-variable bindings indexed from the cursor found (expected >= 3)" % n)
     r.analysed = {"bindings": n}
     return r
+
+
+# ---------------------------------------------------------------- FLW-15: a structure matches only when every item was consumed
+
+def flw15(ctx):
+    """`<t a q>` matches a syllable only if t, a and q are all found in it. The two structure matchers walk the items of
+    the structure; the walk may end early because the syllable ran out. A `for` over the items ends by exhaustion (all
+    items seen) or by an explicit return / break; a `while` with a second reason to stop (`i < items.len() && same
+    syllable`) must, before it reports a match, test that the item index reached the end."""
+    from engine_flw2 import _all_defs
+    r = RuleResult("FLW-15", "input_match_structure / context_match_structure: the walk over the structure's items ends by exhaustion of the item iterator, or the success return is preceded by a test that the item index reached items.len()", floor=2)
+    lib = ctx.lib
+    for name in ("input_match_structure", "context_match_structure"):
+        b = ctx.fn(lib, "asca::subrule::SubRule::" + name)
+        cfg = b.cfg
+        walkers = {i for i, t in b.calls() if (callee_path(t) or "").endswith(("SubRule::context_match_ipa", "SubRule::context_match_matrix"))}
+        loops = [(h, set(body)) for h, body in cfg.loops if walkers & set(body)]
+        if not loops:
+            raise AnchorMissing("FLW-15: %s: loop over the structure's items not found" % name)
+        h, body = max(loops, key=lambda x: len(x[1]))
+        ht = b.blocks[h]["t"]
+        by_iter = ht["k"] == "call" and (ht["callee"].get("def") or "").endswith("Iterator::next") and "asca::parser::Item" in (ht["callee"].get("inst") or "")
+        loc = ":".join((ht.get("loc") or b.loc).split(":")[:2])
+        if by_iter:
+            r.inst("%s: the items are walked by an iterator: the loop ends when every item was seen (or by return / break)" % name, loc, "ok")
+            continue
+        # a condition-driven loop: success returns after it must pass a comparison with items.len()
+        len_cmp = set()
+        for bi, bl in enumerate(b.blocks):
+            if bi in body:
+                continue
+            for s_ in bl["s"]:
+                if s_["k"] == "assign" and s_["rv"].get("k") == "binop" and s_["rv"]["op"] in ("Eq", "Ne", "Lt", "Le", "Gt", "Ge"):
+                    for o in (s_["rv"]["a"], s_["rv"]["b"]):
+                        if o.get("k") in ("copy", "move") and any(x == "len" for x in _all_defs(b, o["pl"]["l"])):
+                            len_cmp.add(bi)
+        exits = {x for y in body for x in cfg.succ[y] if x not in body}
+        # success returns: blocks assigning _0 = Ok(true)
+        succ_ret = set()
+        for bi, bl in enumerate(b.blocks):
+            for s_ in bl["s"]:
+                if s_["k"] == "assign" and s_["lhs"]["l"] == 0 and not s_["lhs"]["p"] and s_["rv"].get("k") == "agg" and s_["rv"].get("variant") == "Ok":
+                    o = s_["rv"]["ops"][0] if s_["rv"].get("ops") else {}
+                    if o.get("k") == "const" and o.get("bool") is True:
+                        succ_ret.add(bi)
+        bad = False
+        for e in exits:
+            reach = cfg.reachable_from(e, avoid=len_cmp)
+            if (reach & succ_ret) and e not in len_cmp:
+                bad = True
+        r.inst("%s: condition-driven walk over the items; a match is reported only after the index was compared with items.len()" % name, loc, "ok" if not bad else "report")
+        if bad:
+            r.report("FLW-15|%s|match-with-items-left" % name, loc, b.path,
+                     "%s walks the items of a structure with a loop that can also stop because the syllable ran out, and then reports a match without testing that every item was consumed: `<t a q>` matches the syllable `ta` and the rule rewrites a word that has no `q`" % name)
+    return r
+
+
+# ---------------------------------------------------------------- FLW-3p: the trace prints every word of the recorded state
+
+def flw3p(ctx):
+    """Every line of get_trace_string shows the phrase as it was after a group: all words of `change.after`, rendered
+    then and there. A printer that re-renders only some words (those that differ from some remembered state) shows a
+    stale word whenever a later group changes a word back."""
+    r = RuleResult("FLW-3p", "trace_to_string renders every word of `change.after` unconditionally for each recorded change", floor=1)
+    lib = ctx.lib
+    b = ctx.fn(lib, "asca::trace_to_string")
+    root = _top_level_inlined_r5(lib, b)
+    par = hirq.parent_map(root)
+    loops = [x for x in hirq.walk(root) if x["e"] == "match" and "ForLoop" in str(x.get("src")) and any(y["e"] == "field" and y.get("name") == "after" for y in hirq.walk(x.get("scrut") or {}))]
+    whole = [x for x in hirq.walk(root) if x["e"] in ("call", "mcall") and any(hirq.strip(a).get("e") in ("field", "addr") and any(y["e"] == "field" and y.get("name") == "after" for y in hirq.walk(a)) for a in x.get("args", []))
+             and not any(x is l or any(x is y for y in hirq.walk(l)) for l in loops)]
+    n = 0
+    for lp in loops:
+        renders = [x for x in hirq.walk(lp) if x["e"] == "mcall" and x["name"] in ("render", "render_normal")]
+        for k, rd in enumerate(renders):
+            n += 1
+            cond = None
+            x = par.get(id(rd))
+            while x is not None and x is not lp:
+                if x.get("e") == "if" or (x.get("e") == "match" and "ForLoop" not in str(x.get("src")) and "TryDesugar" not in str(x.get("src"))):
+                    cond = x
+                    break
+                x = par.get(id(x))
+            loc = fn_loc(b, rd.get("ln"))
+            r.inst("trace_to_string: render #%d of a word of `change.after` is unconditional" % k, loc, "ok" if cond is None else "report")
+            if cond is not None:
+                r.report("FLW-3p|trace_to_string|conditional-render#%d" % k, fn_loc(b, cond.get("ln")), b.path,
+                         "a word of the recorded state is rendered only under a condition (line %s): when the condition compares with anything but the previously printed state, the printed line keeps a stale spelling -- a word that a later group changes back to its original form is never re-rendered" % cond.get("ln"))
+    if n == 0 and not whole:
+        raise AnchorMissing("FLW-3p: trace_to_string: no rendering of the words of `change.after` found")
+    if n == 0:
+        r.inst("trace_to_string hands `change.after` as a whole to its renderer", fn_loc(b), "ok")
+    return r
+
+
+def _top_level_inlined_r5(lib, fb):
+    return hirq.inline_helpers(lib, fb, keep={"asca::normalise"}, prefixes=("asca::",), max_depth=2, only_if=lambda cb: re.match(r"^asca::\w+$", cb.path) is not None)
